@@ -48,6 +48,8 @@ From CG Require Import Spec.InvocationsSub.
 From CG Require Import Model.Compiler.
 From CG Require Import Model.Diag.
 From CG Require Import Model.EmitZsh.
+From CG Require Import Model.EmitPwsh.
+From CG Require Import Model.EmitFish.
 (* add new Require lines above this line *)
 Require Import ExtrOcamlBasic ExtrOcamlString.
 Extraction Language OCaml.
@@ -173,5 +175,7 @@ Separate Extraction
   Diag.error_messages
   Diag.warning_messages
   EmitZsh.script_of_dfa
+  EmitPwsh.script_of_dfa
+  EmitFish.script_of_dfa
   (* add new roots above this line *)
   Prelude.pow2.
